@@ -13,9 +13,20 @@ ciphertexts computed by the instruction-level `Model.AesNi` (so the SDM transcri
 The model's own output bytes are compared with the Spec's on every call; a difference (impossible by
 `Properties/C02.lean`) is printed as `model!=spec`, which shows up as an L1 failure.
 
-ops: expand <keyhex> | block <16 bytes hex> | init <nonce> | init2 <nonce> [<newkeyhex>] |
-     stream <hex> [inplace] | streamzero <n> | buf <nonce> <hex> | free
+ops: expand <keyhex> | block <16 bytes hex> [<inoff> <outoff> [inplace]] | init <nonce> | init2 <nonce> [<newkeyhex>] |
+     stream <hex> [inplace [<off>] | <inoff> <outoff>] | streamzero <n> | buf <nonce> <hex> [<inoff> <outoff>] |
+     seek <block> | bigstream <nonce> <n> <tail> [again] | free
+The offsets (0..15: where the harness puts the data relative to a 16-byte boundary) and `inplace` are facts about
+pointers; the Spec's answer does not depend on them, so the driver only checks their syntax.
 With argument `hw` every call of ≥ 16 bytes takes the AES-NI routing (`Model.AesCtr.streamBulk`).
+
+`bigstream`: a fresh stream, ONE call of n zero bytes (16 ≤ n ≤ 2³² + 2²⁰), then a call of `tail` zero bytes.
+L1 = `Spec.Ctr.streamAt` for fixed windows of the big output (`bigWindows`), the whole tail output, and with `again`
+the words `again=zero` (the harness decrypts the whole buffer with a second stream object in calls of 2²⁰ − 1 bytes:
+CTR applied twice under any partition is the identity, `C02.ctr_twice_is_identity`).  The model is not run over the
+n bytes: its state after the ⌊n/16⌋ whole blocks is written down from the proved invariant exactly as `seek` does
+(`bytectr = 16·nb`, counter field = be64(nb − 1); `buf` = the last keystream block on the portable routing,
+untouched by the bulk loop), the n mod 16 remaining bytes and the tail call are run through the model.
 -/
 namespace Percival.Driver.Aes
 open Percival.Driver Percival.Spec Percival.Model
@@ -60,6 +71,19 @@ def doStream (st : St) (s : AesCtr.Stream Key) (data : List UInt8) : Option (St 
   | some (s', got) =>
     some ({ st with strm := some s', pos := st.pos + data.length }, want, got == want)
 
+/-- an alignment offset 0..15 -/
+def isOff (t : String) : Bool := match t.toNat? with | some v => v < 16 | none => false
+
+/-- `(offset, length)` of the windows of an n-byte output that `bigstream` prints: the first 64 bytes, 64 bytes
+    around every multiple of 2³⁰, the last 48 bytes (each cut to what exists) -/
+def bigWindows (n : Nat) : List (Nat × Nat) :=
+  let cut := fun (w : Nat × Nat) => (w.1, min w.2 (n - w.1))
+  let mids := ((List.range 8).map fun k => ((k + 1) * 2^30 - 32, 64)).filter fun w => w.1 < n
+  ([(0, 64)] ++ mids ++ [(n - min n 48, 48)]).map cut
+
+def bigLimit : Nat := 2^32 + 2^20
+def bigTail : Nat := 65536
+
 def step (st : St) (toks : List String) : St × String :=
   match toks with
   | ["expand", k] =>
@@ -74,7 +98,14 @@ def step (st : St) (toks : List String) : St × String :=
            | none => "ok | rk=model-oob"
          else "ok")
       | none => (st, "skip")
-  | ["block", b] =>
+  | "block" :: b :: rest =>
+      let shape : Option Bool := match rest with       -- none: not an op; some false: offsets out of range
+        | [] => some true
+        | [i, o] => some (isOff i && isOff o)
+        | [i, o, "inplace"] => some (isOff i && isOff o && i.toNat? == o.toNat?)
+        | _ => none
+      if shape == none then (st, "bad-op") else
+      if shape == some false then (st, "skip") else
       match st.key, bytesOfHex b with
       | some rks, some blk =>
         if blk.length = 16 then
@@ -125,7 +156,13 @@ def step (st : St) (toks : List String) : St × String :=
           ({ st with strm := some s', pos := 16 * (n + 1) }, s!"ok | {l2 s'}")
         | none => (st, "model-oob")
       | _, _ => (st, "skip")
-  | "stream" :: d :: _ =>
+  | "stream" :: d :: rest =>
+      let okRest := match rest with
+        | [] | ["inplace"] => true
+        | ["inplace", o] => isOff o
+        | [i, o] => isOff i && isOff o
+        | _ => false
+      if !okRest then (st, "bad-op") else
       match st.strm, bytesOfHex d with
       | some s, some data =>
         match doStream st s data with
@@ -144,7 +181,44 @@ def step (st : St) (toks : List String) : St × String :=
             s!"n={n} fnv={hex64 (fnv1a want)} tail={hexOfBytes (lastN 32 want)} | {l2s}")
         | none => (st, "model-oob")
       | _, _ => (st, "skip")
-  | ["buf", n, d] =>
+  | "bigstream" :: nn :: n :: t :: rest =>
+      if rest != [] ∧ rest != ["again"] then (st, "bad-op") else
+      match st.key, nn.toNat?, n.toNat?, t.toNat? with
+      | some rks, some nn, some n, some t =>
+        if n < 16 ∨ n > bigLimit ∨ t > bigTail then (st, "skip") else
+        let nonce := UInt64.ofNat nn
+        let nb := n / 16
+        let s1? : Option (AesCtr.Stream Key) := do
+          let s0 ← AesCtr.init raw rks nonce
+          let pblk ← AesCtr.writeAt s0.pblk 8 (AesCtr.be64enc (UInt64.ofNat (nb - 1)))
+          pure { s0 with bytectr := UInt64.ofNat (16 * nb), pblk := pblk,
+                         buf := if st.hw then s0.buf else enc rks pblk }
+        match s1? with
+        | none => (st, "model-oob")
+        | some s1 =>
+          let st1 := { st with strm := some s1, nonce, pos := 16 * nb, skey := rks }
+          -- the last n mod 16 bytes of the big call (post_wholeblock), then the tail call
+          match doStream st1 s1 (List.replicate (n % 16) 0) with
+          | none => (st, "model-oob")
+          | some (st2, _, same2) =>
+            match st2.strm with
+            | none => (st, "model-oob")
+            | some s2 =>
+              match doStream st2 s2 (List.replicate t 0) with
+              | none => (st, "model-oob")
+              | some (st3, wantT, same3) =>
+                let wins := (bigWindows n).map fun (off, len) =>
+                  s!" @{off}:{hexOfBytes (Ctr.streamAt (enc rks) nonce off (List.replicate len 0))}"
+                let l2b := match st3.strm with | some s3 => l2 s3 | none => ""
+                (st3, (if same2 && same3 then "" else "model!=spec ") ++
+                  s!"n={n}{String.join wins} tail={hexOfBytes wantT}{if rest == [] then "" else " again=zero"} | {l2 s2} then {l2b}")
+      | _, _, _, _ => (st, "skip")
+  | "buf" :: n :: d :: rest =>
+      let okRest := match rest with
+        | [] => true
+        | [i, o] => isOff i && isOff o
+        | _ => false
+      if !okRest then (st, "bad-op") else
       match st.key, n.toNat?, bytesOfHex d with
       | some rks, some n, some data =>
         let nonce := UInt64.ofNat n
